@@ -35,6 +35,8 @@ pub open spec fn tv_inv<T>(v: TV<T>) -> bool {
     &&& v.hashes.dom() == v.items.dom()
     &&& v.elems.len() == v.items.len()
     &&& forall|i: int| v.items.contains_key(i) ==> v.elems.count(#[trigger] v.items[i]) > 0
+    // `elems` is by definition the multiset of the values of `items`: whatever it contains sits in some bucket
+    &&& forall|x: T| #[trigger] v.elems.count(x) > 0 ==> exists|i: int| #[trigger] v.items.contains_key(i) && v.items[i] == x
 }
 pub open spec fn tv_empty<T>(v: TV<T>) -> bool {
     v.items == Map::<int,T>::empty() && v.hashes == Map::<int,u64>::empty() && v.elems == Multiset::<T>::empty()
